@@ -242,6 +242,9 @@ func c08Run(env *core.Env, idx int) core.CaseResult {
 		res.Count("fault.dangling-pointer(near-miss)", n)
 	}
 	c08SecondRoot(env, idx, &res)
+	if idx < 8 {
+		c08IDScope(idx, &res)
+	}
 	res.NonTrivial = sawFaultAndHealthy
 	res.Sample = map[string]interface{}{"documents": len(w.Docs), "ref_holders": w.Slots, "fault_subsets": len(subsets), "planted": map[string]int{
 		"dangling": w.Features["fault.dangling-pointer"], "ill-typed": w.Features["fault.ill-typed"], "missing-doc": w.Features["fault.missing-document"]}}
@@ -357,6 +360,47 @@ func c08SecondRoot(env *core.Env, idx int, res *core.CaseResult) {
 	}
 }
 
+// c08IDScope: a schema that carries an id and, next to it, a relative $ref. The id opens the scope the $ref is read in (JSON Schema
+// draft 4), so whether the $ref is resolvable is decided at the id's location, not next to the containing document.
+func c08IDScope(k int, res *core.CaseResult) {
+	id := []string{"http://ids.example/c08/dir/", "http://ids.example/c08/dir/self.json", "sub/", "sub/self.json"}[k%4]
+	inScope := k/4 == 0 // the target exists in the id scope only / next to the containing document only
+	scopeDoc := map[bool]string{true: "http://ids.example/c08/dir/item.json", false: "file:///w/a/sub/item.json"}[k%4 < 2]
+	parentDoc := "file:///w/a/item.json"
+	item := func(t string) interface{} {
+		return map[string]interface{}{"definitions": map[string]interface{}{"it": map[string]interface{}{"title": t, "type": "object"}}}
+	}
+	w := &gen.World{Root: gen.RootURL, Features: map[string]int{}, Docs: map[string]interface{}{
+		gen.RootURL: map[string]interface{}{"swagger": "2.0", "info": map[string]interface{}{"title": "t", "version": "1"}, "paths": map[string]interface{}{},
+			"definitions": map[string]interface{}{"scoped": map[string]interface{}{"id": id, "$ref": "item.json#/definitions/it"}}}}}
+	if inScope {
+		w.Docs[scopeDoc] = item("item in the id scope")
+	} else {
+		w.Docs[parentDoc] = item("item next to the containing document")
+	}
+	for _, cont := range []bool{false, true} {
+		o := expandOpts{Continue: cont}
+		r := runExpandSpec(w, o)
+		res.Evals++
+		res.Count("id-scoped-sibling-ref", 1)
+		wit := worldWitness(w, o, map[string]interface{}{"id": id, "target_exists_in_id_scope": inScope, "requests": r.Requests})
+		scoped, _ := oracle.EvalPointer(r.Out, "/definitions/scoped")
+		sm, _ := scoped.(map[string]interface{})
+		switch {
+		case r.Panic != "":
+			res.Violate("panic (id-scoped $ref)", r.Panic, wit)
+		case inScope && r.Err != nil:
+			res.Violate("spurious-error: a $ref next to an id is resolvable in the scope of that id", r.Err.Error(), wit)
+		case inScope && (sm == nil || sm["title"] != "item in the id scope"):
+			res.Violate("id-scoped $ref not expanded from the id scope", oracle.Text(scoped), wit)
+		case !inScope && !cont && r.Err == nil:
+			res.Violate("silent-failure: a $ref next to an id designates nothing in the scope of that id", "nil error; /definitions/scoped = "+core.Abbrev(oracle.Text(scoped), 200), wit)
+		case !inScope && cont && (r.Err != nil || sm == nil || sm["$ref"] != "item.json#/definitions/it"):
+			res.Violate("continue-mode: unresolvable $ref next to an id not left verbatim", fmt.Sprintf("err=%v /definitions/scoped = %s", r.Err, core.Abbrev(oracle.Text(scoped), 200)), wit)
+		}
+	}
+}
+
 func joinKeys(m map[string]bool) string {
 	ks := sortedStrings(m)
 	s := ""
@@ -390,7 +434,7 @@ func init() {
 		Run:      c08Run,
 		Floors: func(env *core.Env) []string {
 			return []string{"fault.loader-refusal", "fault.missing-document", "fault.dangling-pointer", "fault.ill-typed", "fault-holder.schema", "fault-holder.parameter",
-				"fault-holder.response", "fault-holder.pathItem", "strict.error-expected", "strict.no-error-expected", "continue.with-faults", "worlds-with-all-subsets-enumerated", "repeated-failure-with-shared-cache", "second-root-with-shared-cache", "fault.dangling-pointer(near-miss)", "fault.hollow-document"}
+				"fault-holder.response", "fault-holder.pathItem", "strict.error-expected", "strict.no-error-expected", "continue.with-faults", "worlds-with-all-subsets-enumerated", "repeated-failure-with-shared-cache", "second-root-with-shared-cache", "fault.dangling-pointer(near-miss)", "fault.hollow-document", "id-scoped-sibling-ref"}
 		},
 		Exhaustive: func(env *core.Env) bool { return false },
 		Assumptions: []string{"the loader never refuses the root document itself",
